@@ -101,6 +101,16 @@ type imgCase struct {
 	Shape string `json:"shape,omitempty"`
 	// Requirer: "" (all files) | none | link_names (only the names of the link entries).
 	Requirer string `json:"requirer,omitempty"`
+	// KnownPhys is set by the generator, and only while the known finding
+	// c06.unpack_link_physical_escape is listed, on a case for the unpack loaders that belongs to the
+	// input class of that finding (linkThroughLink holds for one of its link entries). For such a
+	// case the oracle discounts exactly the effects the finding explains - directories and symlinks
+	// CREATED outside the target (MkdirAll / Symlink run before or without a containment check) and
+	// symlinks left inside the target that resolve outside it - and nothing else: a regular file
+	// created outside, and any change or deletion of something that existed, is a violation. A case
+	// without the flag (every witness file, every case once the finding is repaired) is decided by
+	// the full oracle.
+	KnownPhys bool `json:"known_link_physical,omitempty"`
 }
 
 // spell returns the spelling of the cleaned absolute path abs and the working directory the
@@ -569,6 +579,241 @@ func sortInts(a []int, descending bool) {
 	}
 }
 
+// ---------------------------------------------------------------------------------------
+// Self-referential links. A link whose target is its own directory or an ancestor of it inside the
+// image ("t -> .", "t -> x/..", "a/t2 -> ..", "a/b/t4 -> ../..", an alias "p -> t") makes a name
+// longer without leading anywhere: t/t/t is the unpack directory itself on disk but three levels
+// deep lexically. A climb link hops through such links and then climbs with as many ".." as the
+// hops have gained: "out -> t/t/../.." is the image root for a lexical check (TargetOutsideRoot)
+// and two directories above the unpack directory on disk. Later climb links may hop through earlier
+// ones (chains). Below the climb links the family writes regular files (mostly), links and
+// directories at depth 1, 2 and 3, and every name of the family is spelled in one of the styles an
+// archive may use: "out/f", "./out/f", "/out/f", "out//f", "out/./f".
+//
+// Bounds (safety of the host, see climbBound): at most three self links / aliases with at most three
+// ".." each, at most three climb links with at most three ".." each and at most three entries below
+// each of them, of which the link entries have at most one "..", no ".." in any name: the family
+// adds at most 27 to the bound, and a case with the family has at most four other entries.
+
+var (
+	selfRootNames   = []string{"t", "s", "self"}
+	selfRootTargets = []string{".", ".", ".", "./", "./.", "x/..", "./x/..", "x/../."}
+	selfSub1Targets = []string{"..", "..", "../", "../.", "./..", "../x/.."}
+	selfSub2Targets = []string{"../..", "../..", "../../.", "..//..", "../../x/.."}
+	climbNames      = []string{"out", "esc", "up2"}
+	climbSuffixes   = []string{"", "", "", "", "outside", "target-evil", "tmp", "in", "5", "x", "hold"}
+	belowLeafs      = []string{"pwned.txt", "pwned.txt", "pwned.txt", "new.cfg", "canary.txt", "keep", "secret.txt"}
+	nameStyles      = []string{"plain", "plain", "plain", "dot_slash", "dot_slash", "abs", "inner_double_slash", "inner_dot"}
+)
+
+// styleName spells the cleaned relative name n in the given style.
+func styleName(n, style string) string {
+	switch style {
+	case "dot_slash":
+		return "./" + n
+	case "abs":
+		return "/" + n
+	case "inner_double_slash":
+		if i := strings.LastIndex(n, "/"); i >= 0 {
+			return n[:i] + "//" + n[i+1:]
+		}
+		return ".//" + n
+	case "inner_dot":
+		if i := strings.LastIndex(n, "/"); i >= 0 {
+			return n[:i] + "/./" + n[i+1:]
+		}
+		return "././" + n
+	}
+	return n
+}
+
+// nameStyleOf is the inverse of styleName for labelling (any entry name).
+func nameStyleOf(n string) string {
+	switch {
+	case strings.Contains(n, "${"):
+		return "placeholder"
+	case strings.HasPrefix(n, "/"):
+		return "abs"
+	case n == path.Clean(n):
+		return "plain"
+	case strings.HasPrefix(n, "./") && n[2:] == path.Clean(n):
+		return "dot_slash"
+	case strings.Contains(n, "//"):
+		return "inner_double_slash"
+	case strings.Contains(n, "/./") || strings.HasPrefix(n, "./"):
+		return "inner_dot"
+	}
+	return "other"
+}
+
+func genSelfRefFamily(t *rapid.T, c *imgCase) {
+	nl := len(c.Layers)
+	linkType := func() string { return rapid.SampledFrom([]string{"sym", "sym", "sym", "hard"}).Draw(t, "sr_type") }
+	type hop struct {
+		name string // relative to the unpack directory
+		gain int    // lexical depth gained
+		stay bool   // resolves to the unpack directory on disk (further hops by name remain possible)
+	}
+	var links, below []tarEntry
+	var hops []hop
+	needX := false
+	addLink := func(name, target string) {
+		needX = needX || strings.Contains(target, "x/")
+		links = append(links, tarEntry{Name: name, Type: linkType(), Link: target})
+	}
+	// self links: one directly in the unpack directory, then up to two more of any kind
+	used := map[string]bool{}
+	nSelf := rapid.IntRange(1, 3).Draw(t, "sr_self")
+	for i := 0; i < nSelf; i++ {
+		kind := "root"
+		if i > 0 {
+			kind = rapid.SampledFrom([]string{"root", "alias", "sub1", "sub1", "sub1_own_dir", "sub2"}).Draw(t, "sr_self_kind")
+		}
+		var h hop
+		var target string
+		switch kind {
+		case "root":
+			h = hop{rapid.SampledFrom(selfRootNames).Draw(t, "sr_self_name"), 1, true}
+			target = rapid.SampledFrom(selfRootTargets).Draw(t, "sr_self_target")
+		case "alias": // a link to the first self link
+			h = hop{rapid.SampledFrom([]string{"p", "q2"}).Draw(t, "sr_alias_name"), 1, true}
+			target = rapid.SampledFrom([]string{"", "./", "x/../"}).Draw(t, "sr_alias_via") + hops[0].name
+		case "sub1": // one directory deep, back to the unpack directory
+			h = hop{"a/t2", 2, true}
+			target = rapid.SampledFrom(selfSub1Targets).Draw(t, "sr_self_target")
+		case "sub1_own_dir": // one directory deep, its own directory: one level below the unpack directory
+			h = hop{"a/t3", 2, false}
+			target = rapid.SampledFrom([]string{".", "./", "../a"}).Draw(t, "sr_self_target")
+		case "sub2":
+			h = hop{"a/b/t4", 3, true}
+			target = rapid.SampledFrom(selfSub2Targets).Draw(t, "sr_self_target")
+		}
+		if used[h.name] {
+			continue
+		}
+		used[h.name] = true
+		addLink(h.name, target)
+		hops = append(hops, h)
+	}
+	// climb links
+	nClimb := rapid.IntRange(1, 3).Draw(t, "sr_climb")
+	for i := 0; i < nClimb; i++ {
+		name := climbNames[i]
+		dirPrefix := 0 // ".." segments that lead from the link's directory to the image root
+		switch rapid.IntRange(0, 5).Draw(t, "sr_climb_dir") {
+		case 0:
+			name, dirPrefix = "d1/"+name, 1
+		case 1:
+			name, dirPrefix = "a/"+name, 1
+		}
+		var segs []string
+		for j := 0; j < dirPrefix; j++ {
+			segs = append(segs, "..")
+		}
+		gain := 0
+		nh := rapid.IntRange(1, 3).Draw(t, "sr_hops")
+		for j := 0; j < nh; j++ {
+			var stay []hop
+			for _, h := range hops {
+				if h.stay {
+					stay = append(stay, h)
+				}
+			}
+			pool := stay
+			if j == nh-1 {
+				pool = hops // the last hop may leave the unpack directory: an earlier climb link, a/t3
+			}
+			h := rapid.SampledFrom(pool).Draw(t, "sr_hop")
+			segs = append(segs, h.name)
+			gain += h.gain
+			if !h.stay {
+				break
+			}
+		}
+		maxDD := 3 - dirPrefix
+		if gain < maxDD {
+			maxDD = gain
+		}
+		dd := maxDD
+		switch rapid.IntRange(0, 7).Draw(t, "sr_dd") {
+		case 0:
+			dd = 0 // harmless
+		case 1, 2:
+			dd = rapid.IntRange(1, maxDD).Draw(t, "sr_dd_n")
+		}
+		for j := 0; j < dd; j++ {
+			segs = append(segs, "..")
+		}
+		// one of the climbs between the hops instead of after them (lexically equivalent; on disk
+		// the later hops then start from above the unpack directory and find nothing)
+		if dd > 0 && len(segs)-dirPrefix-dd >= 2 && rapid.IntRange(0, 5).Draw(t, "sr_interleave") == 0 {
+			at := dirPrefix + 1
+			segs = append(segs[:at], append([]string{".."}, segs[at:len(segs)-1]...)...)
+		}
+		if sfx := rapid.SampledFrom(climbSuffixes).Draw(t, "sr_suffix"); sfx != "" {
+			segs = append(segs, sfx)
+		}
+		target := strings.Join(segs, "/")
+		if rapid.IntRange(0, 9).Draw(t, "sr_target_dot") == 0 {
+			target = "./" + target
+		}
+		addLink(name, target)
+		if dirPrefix == 0 {
+			hops = append(hops, hop{name, 1, false})
+		}
+		// entries below the climb link: depth 1 (half), 2, 3
+		nb := rapid.SampledFrom([]int{0, 1, 1, 1, 1, 2, 2, 3}).Draw(t, "sr_below")
+		for j := 0; j < nb; j++ {
+			rest := rapid.SampledFrom([]string{"", "", "d/", "d/e/"}).Draw(t, "sr_below_dirs") + rapid.SampledFrom(belowLeafs).Draw(t, "sr_below_leaf")
+			e := tarEntry{Name: name + "/" + rest, Type: rapid.SampledFrom([]string{"reg", "reg", "reg", "reg", "reg", "reg", "sym", "dir"}).Draw(t, "sr_below_type")}
+			switch e.Type {
+			case "reg":
+				e.Body = "written below " + name + "\n"
+			case "sym":
+				e.Type = linkType()
+				e.Link = rapid.SampledFrom([]string{".", "pwned.txt", "canary.txt", "..", "missing"}).Draw(t, "sr_below_target")
+			}
+			below = append(below, e)
+		}
+	}
+	// a regular entry written through the self links themselves lands in the unpack directory
+	if rapid.IntRange(0, 3).Draw(t, "sr_self_through") == 0 {
+		h := hops[0].name
+		below = append(below, tarEntry{Name: h + "/" + h + "/inside.txt", Type: "reg", Body: "through " + h + "\n"})
+	}
+	var items []tarEntry
+	if needX && rapid.IntRange(0, 7).Draw(t, "sr_no_anchor") != 0 {
+		items = append(items, tarEntry{Name: "x/keep.txt", Type: "reg", Body: "x"})
+	}
+	switch rapid.SampledFrom([]string{"natural", "natural", "natural", "natural", "natural", "below_first", "reversed"}).Draw(t, "sr_order") {
+	case "natural":
+		items = append(append(items, links...), below...)
+	case "below_first":
+		items = append(append(items, below...), links...)
+	case "reversed":
+		all := append(append([]tarEntry{}, links...), below...)
+		for i := len(all) - 1; i >= 0; i-- {
+			items = append(items, all[i])
+		}
+	}
+	// one style for the whole family (half of the cases) or one per entry
+	style := rapid.SampledFrom(nameStyles).Draw(t, "sr_style")
+	perEntry := rapid.Bool().Draw(t, "sr_style_per_entry")
+	ord := streamLayers(c.Loader, nl)
+	slot := rapid.IntRange(0, nl-1).Draw(t, "sr_slot")
+	spread := nl > 1 && rapid.IntRange(0, 2).Draw(t, "sr_spread") == 0
+	for _, e := range items {
+		if perEntry {
+			style = rapid.SampledFrom(nameStyles).Draw(t, "sr_style")
+		}
+		e.Name = styleName(e.Name, style)
+		if spread && slot < nl-1 {
+			slot += rapid.IntRange(0, 1).Draw(t, "sr_next_layer")
+		}
+		c.Layers[ord[slot]] = append(c.Layers[ord[slot]], e)
+	}
+}
+
 // genDirSpec draws the place and the spelling of a caller-chosen directory: below 0..3 otherwise
 // empty directories (half of the cases: none); spelled as the cleaned absolute path (one case in
 // five), with a trailing "/" or "//", with "//" or "///" in place of an inner separator, with a
@@ -729,9 +974,30 @@ func genImgCase(t *rapid.T) imgCase {
 	}
 	nl := rapid.IntRange(1, 3).Draw(t, "layers")
 	c.Layers = make([][]tarEntry, nl)
+	// cases of the input class of the known finding c06.unpack_link_physical_escape: half of them
+	// are kept and decided by the oracle that discounts what the finding explains (imgCase.KnownPhys),
+	// the other half is rewritten so that it leaves the class and is decided by the full oracle
+	keepPhys := rapid.Bool().Draw(t, "keep_known_link_physical")
 	if c.Shape != "" {
 		genEmptyShape(t, &c)
-		return finishImgCase(col, c)
+		return finishImgCase(col, c, keepPhys)
+	}
+	// the self-referential-link family: one case in four, always kept in the known class, placed
+	// before, between or after at most four other entries
+	if rapid.IntRange(0, 3).Draw(t, "selfref_family") == 0 {
+		n := rapid.IntRange(0, 4).Draw(t, "entries")
+		famAt := rapid.IntRange(0, n).Draw(t, "selfref_family_at")
+		for i := 0; i <= n; i++ {
+			if i == famAt {
+				genSelfRefFamily(t, &c)
+			}
+			if i == n {
+				break
+			}
+			li := rapid.IntRange(0, nl-1).Draw(t, "layer")
+			c.Layers[li] = append(c.Layers[li], genEntry(t))
+		}
+		return finishImgCase(col, c, true)
 	}
 	// the shared-link-target shape: in two of five cases one group of links that carry the same
 	// relative target string at different depths, placed before, between or after the other entries
@@ -767,12 +1033,14 @@ func genImgCase(t *rapid.T) imgCase {
 		}
 		c.Layers[li] = append(c.Layers[li], genEntry(t))
 	}
-	return finishImgCase(col, c)
+	return finishImgCase(col, c, keepPhys)
 }
 
-// finishImgCase suppresses the input classes of the known findings by construction and asserts the
-// climb bound.
-func finishImgCase(col *ev.Collector, c imgCase) imgCase {
+// finishImgCase suppresses the input class of the known finding c06.unpack_dotdot_name by
+// construction, handles the input class of c06.unpack_link_physical_escape (keepPhys: the case stays
+// as it is and is marked KnownPhys; otherwise its links are rewritten so that it leaves the class)
+// and asserts the climb bound.
+func finishImgCase(col *ev.Collector, c imgCase, keepPhys bool) imgCase {
 	if strings.HasPrefix(c.Loader, "unpack") {
 		dot := col.IsKnown(classUnpackDotDotName)
 		phys := col.IsKnown(classUnpackLinkPhysical)
@@ -790,6 +1058,10 @@ func finishImgCase(col *ev.Collector, c imgCase) imgCase {
 				for ei := range c.Layers[li] {
 					e := &c.Layers[li][ei]
 					if (e.Type == "sym" || e.Type == "hard") && linkThroughLink(c, e) {
+						if keepPhys {
+							c.KnownPhys = true
+							continue
+						}
 						col.Excluded(classUnpackLinkPhysical)
 						e.Link = "a"
 					}
